@@ -1,15 +1,24 @@
 """C06 - Form lowering is a lossless decomposition by region and test/trial block.
 
-theorems      : coq/Props/C06.v  (Model/FormsM.v: Integral / IntAdd splitting and re-grouping, the BasicForm arm of
-                TerminalExpr.eval, _to_matrix_form, _unpack_functions; Proofs/FormsP.v: no term lost or duplicated,
-                block attribution, one kernel per region, region-wise sums, zero forms)
+theorems      : coq/Props/C06.v  (Model/FormsM.v: Integral / IntAdd splitting and re-grouping, the scalar arithmetic of integral
+                trees (c*I, I*c, I/c, c/I, -I, a-b, 0+I, sum([..])) as arms, the BasicForm arm of TerminalExpr.eval on constructed
+                forms (lower_form) and on any form object (lower_rform: kernels keyed by domain.interior, Union-keyed kernels
+                handed to the members with accumulation), _to_matrix_form, _unpack_functions; Proofs/FormsP.v: no term lost or
+                duplicated, block attribution, one kernel per region, region-wise sums, zero forms, linearity of the operators)
 correspondence: real BilinearForm / LinearForm / Functional + TerminalExpr(form, domain) on generated forms vs the model
-                `lower` applied to the same integrals (domains read from the real objects, integrands = the real
-                TerminalExpr of the un-split integrand), decided inside Coq: targets structurally, entries by `tequiv`
+                `lower` applied to the same tree of integrals and operators (domains read from the real objects, integrands =
+                the real TerminalExpr of the un-split integrand, scalars = the real objects serialised), decided inside Coq:
+                targets structurally, entries by `tequiv`.  Generated: sums / differences / scalar multiples / quotients of
+                integrals, overlapping regions through Unions (Union(A,B) + A + a face of B + the boundary) on 2-4 patches,
+                cancellation on one region or everywhere, (zero) Functionals over Unions, product spaces, and hand-assembled
+                Functionals whose `domain` holds Domain objects (the only way into the block "treating subdomains").
 oracle        : the property itself on the implementation's own output, (a) inside Coq by `tequiv` against the
-                specification (sum of the entries of a region's kernel == sum of the integrands of the integrals whose
-                domain contains the region; entry (i,j) == that integrand with the other components replaced by 0; one
-                kernel per region), (b) numerically with explicit polynomials (tools/impl/C06_impl.py)
+                specification written by the harness (sum of the entries of a region's kernel == sum, over the integrals whose
+                domain contains the region, of the integrand under the operators between the integral and the root; entry (i,j)
+                == that integrand with the other components replaced by 0; one kernel per region), (b) numerically with explicit
+                polynomials (tools/impl/C06_impl.py); (c) direct probes of the anchored functions' other arms (error exits as an
+                enum, Integral flags, Trace / Matrix / vector / Abs / BasicExpr arms of TerminalExpr.eval against their
+                definitions by tequiv, _to_matrix_form with an InterfaceMapping): oracle-only, no model arm.
 """
 import copy
 import json
@@ -80,6 +89,44 @@ Definition arm_tag (f : option form) : nat :=
 Definition flat_ok (k : fkind) (trials tests : list comp) : nat :=
   let (a, b) := get_trials_tests k in
   if list_beq comp_eqb a trials && list_beq comp_eqb b tests then 0 else 1.
+(* hand-assembled form objects (FormsM.rform): the targets are [dom]s, compared as canonical sets of members *)
+Definition dkey (k : dom) : list region := rcanon (members k).
+Definition dget (k : dom) (ks : list (dom * matrix)) : option matrix :=
+  match filter (fun km => list_beq region_eqb (dkey (fst km)) (dkey k)) ks with (_, m) :: _ => Some m | [] => None end.
+Definition cmp_rmodel (model : option (list (dom * matrix))) (impl : list (dom * matrix)) : nat :=
+  match model with
+  | None => 3
+  | Some mk =>
+    let ok := forallb (fun k => match dget k mk, dget k impl with
+                                | Some a, Some b => mat_equiv a b
+                                | Some a, None => mat_zero a
+                                | None, Some b => mat_zero b
+                                | None, None => true end) (map fst mk ++ map fst impl) in
+    if ok then (if Nat.eqb (length mk) (length impl) && forallb (fun k => match dget k impl with Some _ => true | None => false end) (map fst mk)
+                then 0 else 1) else 2
+  end.
+(* a functional (1x1 kernels); spec lists a region once per distinct interior that covers it *)
+Definition roracle (spec : list iterm) (impl : list (dom * matrix)) : nat :=
+  let regs := rcanon (map fst spec) in
+  let integrand r := tsum (on_region r spec) in
+  let atomic := forallb (fun km => match fst km with DReg _ => true | _ => false end) impl in
+  let targets := flat_map (fun km => members (fst km)) impl in
+  let structural := nodupb targets && forallb (fun r => existsb (region_eqb r) regs) targets
+                    && forallb (fun km => shape_ok [] [] (snd km)) impl in
+  if negb structural then 2 else
+  if atomic then
+    let noloss := forallb (fun km => match fst km with DReg r => tequiv (msum (snd km)) (integrand r) | _ => false end) impl in
+    let missing := forallb (fun r => if existsb (region_eqb r) targets then true else tequiv (integrand r) (TZ 0)) regs in
+    if noloss && missing then 0 else 1
+  else (* only the corner case "the expression is zero" hands a kernel to a Union: one zero kernel, everything vanishes *)
+    if Nat.eqb (length impl) 1 && forallb (fun km => mat_zero (snd km)) impl && forallb (fun r => tequiv (integrand r) (TZ 0)) regs
+    then 0 else 1.
+Definition rarm_tag (f : rform) : nat :=
+  match rd_new_of isz f with
+  | Some [] => 4
+  | Some d => if existsb (fun km => is_union (fst km)) d then 5 else 3
+  | None => 9
+  end.
 """
 
 SCAL_TRIAL = ["u", "p", "w"]
@@ -96,8 +143,8 @@ def gen_topo(rng, tier):
     kind = rng.choices(["single", "multi", "generic", "mapped", "interiors"], [0.34, 0.34, 0.12, 0.12, 0.08])[0]
     if kind == "multi":
         d = rng.choice([2, 2, 2, 3] if tier == "quick" else [2, 2, 3])
-        n = rng.choice([2, 2, 3])
-        names = ["A", "B", "C"][:n]
+        n = rng.choice([2, 2, 3, 3, 4] if d == 2 else [2, 2, 3])
+        names = ["A", "B", "C", "E"][:n]
         joins = [[[k, 0, 1], [k + 1, 0, -1]] for k in range(n - 1)]
         return {"kind": kind, "patches": names, "joins": joins, "name": "".join(names), "mapped": rng.random() < 0.25}, d
     d = rng.choice([1, 2, 2, 3] if tier == "quick" else [1, 2, 2, 3, 3])
@@ -151,6 +198,10 @@ def expected_regions(D, topo, d):
                 if r not in out:
                     out.append(r)
         return out
+    if t == "rawdomain":                      # the Domain object itself: its interior
+        return expected_regions({"t": "domain"}, topo, d)
+    if t == "rawpatch":
+        return expected_regions({"t": "patch", "p": D["p"]}, topo, d)
     raise ValueError(t)
 
 
@@ -158,9 +209,9 @@ def gen_dom(rng, topo, d, boundary_wanted):
     kind = topo["kind"]
     np_ = len(topo["patches"])
     if not boundary_wanted or kind == "interiors":
-        if np_ > 1 and rng.random() < 0.35:
-            if rng.random() < 0.4 and np_ > 2:
-                ps = rng.sample(range(np_), 2)
+        if np_ > 1 and rng.random() < 0.45:
+            if rng.random() < 0.5:
+                ps = rng.sample(range(np_), rng.randint(2, np_))
                 return {"t": "union", "of": [{"t": "patch", "p": i} for i in ps]}
             return {"t": "patch", "p": rng.randrange(np_)}
         return {"t": "domain"}
@@ -410,9 +461,216 @@ def space_kind(args):
     return "product(vector^%d)" % len(args) if args[0]["vec"] else "product(scalar^%d)" % len(args)
 
 
+# ------------------------------------------------------------------------------ integral trees
+UNARY = ("scale", "div", "rdiv", "neg")
+
+
+def children(x):
+    k = x["k"]
+    if k in ("add", "sub"):
+        return [x["a"], x["b"]]
+    if k in UNARY:
+        return [x["x"]]
+    if k == "sum":
+        return list(x["xs"])
+    return []
+
+
+def with_children(x, ch):
+    k = x["k"]
+    y = dict(x)
+    if k in ("add", "sub"):
+        y["a"], y["b"] = ch
+    elif k in UNARY:
+        y["x"] = ch[0]
+    elif k == "sum":
+        y["xs"] = list(ch)
+    return y
+
+
+def child_paths(x):
+    """the path suffixes the runner uses for the children of a node"""
+    k = x["k"]
+    if k in ("add", "sub"):
+        return ["a", "b"]
+    if k in UNARY:
+        return ["x"]
+    if k == "sum":
+        return ["s%d" % i for i in range(len(x["xs"]))]
+    return []
+
+
+def leaves_of(x):
+    if x["k"] == "int":
+        return [x]
+    out = []
+    for c in children(x):
+        out += leaves_of(c)
+    return out
+
+
+def leaf_wraps(x, wraps=(), path=""):
+    """per integral(...) of the tree, in evaluation order: the scalar operators between the root and it, outermost first,
+    as (kind, path of the node that carries the scalar)"""
+    k = x["k"]
+    if k == "int":
+        return [list(wraps)]
+    out = []
+    for c, sfx in zip(children(x), child_paths(x)):
+        w = wraps
+        if k == "sub" and sfx == "b":
+            w = wraps + (("neg", None),)
+        elif k == "scale":
+            w = wraps + (("mul", path),)
+        elif k in ("div", "rdiv"):
+            w = wraps + (("div", path),)
+        elif k == "neg":
+            w = wraps + (("neg", None),)
+        out += leaf_wraps(c, w, path + sfx)
+    return out
+
+
+def tree_ops(x, acc=None):
+    acc = {} if acc is None else acc
+    k = x["k"]
+    if k == "scale":
+        k = "scale-right" if x.get("right") else "scale-left"
+    acc[k] = acc.get(k, 0) + 1
+    for c in children(x):
+        tree_ops(c, acc)
+    return acc
+
+
+MUL_COEFS = [num(2), num(-1), num(3, 2), num(-3), num(1, 2)]
+DIV_COEFS = [num(3), num(-2), num(2, 3), num(4)]
+
+
+def rand_coef(rng, pool):
+    if rng.random() < 0.25:
+        return {"k": "const", "name": rng.choice(CONSTS)}
+    return rng.choice(pool)
+
+
+def rand_unary(rng, node, allow_rdiv=True):
+    c = rng.random()
+    if c < 0.30:
+        return {"k": "scale", "c": rand_coef(rng, MUL_COEFS), "x": node, "right": rng.random() < 0.5}
+    if c < 0.52:
+        return {"k": "div", "x": node, "c": rand_coef(rng, DIV_COEFS)}
+    if c < 0.62 and allow_rdiv:
+        return {"k": "rdiv", "c": rand_coef(rng, DIV_COEFS), "x": node}
+    if c < 0.80:
+        return {"k": "neg", "x": node}
+    z = {"k": "zero", "sym": rng.random() < 0.5}
+    return {"k": "add", "a": z, "b": node} if rng.random() < 0.5 else {"k": "add", "a": node, "b": z}
+
+
+def gen_tree(rng, nodes, allow_rdiv=True, p_unary=0.16):
+    """a random tree of +, -, sum([..]) and scalar operators over the given nodes"""
+    nodes = [rand_unary(rng, n, allow_rdiv) if rng.random() < p_unary else n for n in nodes]
+    while len(nodes) > 1:
+        i = 0 if rng.random() < 0.7 else rng.randrange(len(nodes) - 1)
+        if len(nodes) - i >= 3 and rng.random() < 0.12:
+            m = rng.randint(2, min(3, len(nodes) - i))
+            node = {"k": "sum", "xs": nodes[i:i + m]}
+            nodes[i:i + m] = [node]
+        else:
+            node = {"k": "sub" if rng.random() < 0.22 else "add", "a": nodes[i], "b": nodes[i + 1]}
+            nodes[i:i + 2] = [node]
+        if rng.random() < p_unary:
+            nodes[i] = rand_unary(rng, nodes[i], allow_rdiv)
+    return nodes[0]
+
+
+def overlap_domains(rng, topo, d):
+    """regions that overlap through Unions: Union(A, B) + A + a face of B + the whole boundary, ..."""
+    kind = topo["kind"]
+    np_ = len(topo["patches"])
+    if kind == "multi":
+        ps = rng.sample(range(np_), rng.randint(2, np_))
+        big = {"t": "domain"} if (len(ps) == np_ and rng.random() < 0.5) else {"t": "union", "of": [{"t": "patch", "p": i} for i in ps]}
+        one = {"t": "patch", "p": rng.choice(ps)}
+        faces = all_faces(topo, d)
+        other = [f for f in faces if f["p"] != one["p"]] or faces
+        f = rng.choice(other)
+        more = rng.sample([g for g in faces if g != f], rng.randint(1, min(2, len(faces) - 1)))
+        bnd = {"t": "boundary"} if rng.random() < 0.6 else {"t": "union", "of": [f] + more}
+        doms = [(big, False), (one, False), (f, True), (bnd, True)]
+        n = rng.choice([2, 3, 3, 4, 4])
+        keep = doms[:2] + rng.sample(doms[2:], n - 2)
+        return keep
+    if kind == "interiors":
+        ps = rng.sample(range(np_), rng.randint(2, np_))
+        return [({"t": "union", "of": [{"t": "patch", "p": i} for i in ps]}, False), ({"t": "patch", "p": rng.choice(ps)}, False)] + \
+               ([({"t": "domain"}, False)] if rng.random() < 0.5 else [])
+    if kind == "generic":
+        names = topo["bnds"]
+        if len(names) < 2:
+            return [({"t": "domain"}, False), ({"t": "bnd", "n": names[0]}, True), ({"t": "bnd", "n": names[0]}, True)]
+        sub = rng.sample(names, rng.randint(2, len(names)))
+        return [({"t": "union", "of": [{"t": "bnd", "n": n} for n in sub]}, True), ({"t": "bnd", "n": rng.choice(sub)}, True)] + \
+               ([({"t": "domain"}, False)] if rng.random() < 0.6 else [])
+    faces = all_faces(topo, d)
+    sub = rng.sample(faces, rng.randint(2, min(len(faces), 3)))
+    big = {"t": "boundary"} if rng.random() < 0.5 else {"t": "union", "of": sub}
+    one = rng.choice(sub if big["t"] == "union" else faces)
+    out = [(big, True), (one, True)]
+    if rng.random() < 0.6:
+        out.append(({"t": "domain"}, False))
+    return out
+
+
+def gen_functional(rng, tier, case, topo, d, has_bnd, raw=False):
+    bnd = has_bnd and rng.random() < 0.35
+    c = rng.random()
+    np_ = len(topo["patches"])
+    if c < 0.22 and topo["kind"] in ("multi", "single", "mapped"):
+        # a Union that mixes an interior and a face, or several faces and a patch
+        faces = all_faces(topo, d)
+        of = [{"t": "patch", "p": rng.randrange(np_)}] + rng.sample(faces, rng.randint(1, min(2, len(faces))))
+        if np_ > 2 and rng.random() < 0.4:
+            of.append({"t": "patch", "p": rng.randrange(np_)})
+        D = {"t": "union", "of": [x for i, x in enumerate(of) if x not in of[:i]]}
+        bnd = True
+    else:
+        D = gen_dom(rng, topo, d, bnd)
+    g = EGen(rng, d, False)
+    z = rng.random()
+    if z < 0.10:
+        e = num(0)                                          # the zero functional: one zero kernel, no error
+    elif z < 0.16:
+        t = g.functional_term()
+        e = add(t, mul(num(-1), t))
+    else:
+        e = g.integrand("functional", [], [], rng.randint(1, 2))
+    case["x"] = {"k": "int", "dom": D, "e": e}
+    case["style"] = "functional"
+    if raw and topo["kind"] in ("multi", "single", "mapped"):
+        # a hand-assembled form object (its own integral is over one atomic region: with several, `domain` would have to
+        # list them all, else the code's d_expr[d] += a is a KeyError on an inconsistent object)
+        faces = all_faces(topo, d)
+        case["x"]["dom"] = {"t": "patch", "p": rng.randrange(np_)} if rng.random() < 0.7 else rng.choice(faces)
+        # (the entries of `domain` are not all atomic, see FormsM.rform)
+        opts = [{"t": "rawdomain"}] + [{"t": "rawpatch", "p": i} for i in range(np_)] + [{"t": "patch", "p": i} for i in range(np_)]
+        ents = rng.sample(opts, rng.randint(1, min(3, len(opts))))
+        if not any(x["t"] == "rawdomain" for x in ents) and rng.random() < 0.7:
+            ents[0] = {"t": "rawdomain"}
+        if not any(x["t"].startswith("raw") for x in ents):
+            ents[0] = {"t": "rawpatch", "p": rng.randrange(np_)}
+        if rng.random() < 0.3:
+            ents.append(rng.choice(all_faces(topo, d)))
+        case["raw_domain"] = ents
+        case["style"] = "raw-functional"
+    return finish_case(case)
+
+
 def gen_case(rng, tier, idx):
     topo, d = gen_topo(rng, tier)
-    kind = rng.choices(["bilinear", "linear", "functional"], [0.6, 0.28, 0.12])[0]
+    kind = rng.choices(["bilinear", "linear", "functional"], [0.55, 0.27, 0.18])[0]
+    raw = kind == "functional" and rng.random() < 0.45
+    if raw and topo["kind"] != "multi" and rng.random() < 0.8:
+        while topo["kind"] != "multi":      # Union-keyed kernels need a Domain with several patches
+            topo, d = gen_topo(rng, tier)
     case = {"dim": d, "topo": topo, "kind": kind, "seed": rng.randrange(1 << 30), "trials": [], "tests": []}
     if kind == "bilinear":
         case["trials"] = gen_args(rng, d, SCAL_TRIAL, VEC_TRIAL)
@@ -421,48 +679,103 @@ def gen_case(rng, tier, idx):
         case["tests"] = gen_args(rng, d, SCAL_TEST, VEC_TEST)
     has_bnd = topo["kind"] != "interiors"
     if kind == "functional":
-        bnd = has_bnd and rng.random() < 0.3
-        D = gen_dom(rng, topo, d, bnd)
-        g = EGen(rng, d, bnd)
-        case["x"] = {"k": "int", "dom": D, "e": g.integrand(kind, [], [], rng.randint(1, 2))}
-        return finish_case(case)
+        return gen_functional(rng, tier, case, topo, d, has_bnd, raw)
     big = d == 3 and (len(case["trials"]) + len(case["tests"]) >= 4)
-    nleaves = rng.choices([1, 2, 3, 4], [0.2, 0.4, 0.25, 0.15])[0]
-    leaves = []
-    for k in range(nleaves):
-        bnd = has_bnd and (rng.random() < 0.5 if k else rng.random() < 0.2)
-        D = gen_dom(rng, topo, d, bnd)
+    maxterms = 2 if (big or tier == "quick") else 3
+
+    def leaf(D, bnd, e=None):
         g = EGen(rng, d, bnd)
-        nterms = rng.randint(1, 2 if (big or tier == "quick") else 3)
-        e = g.integrand(kind, case["trials"], case["tests"], nterms)
-        if k and rng.random() < 0.06:
-            # a term that cancels an earlier one on the same domain (vanishing contributions)
-            prev = rng.choice(leaves)
-            D, e = prev["dom"], mul(num(-1), prev["e"])
-        leaves.append({"k": "int", "dom": D, "e": e})
-    # a random binary tree of + over the leaves (left-deep most of the time)
-    nodes = list(leaves)
-    while len(nodes) > 1:
-        i = 0 if rng.random() < 0.7 else rng.randrange(len(nodes) - 1)
-        node = {"k": "sub" if rng.random() < 0.15 else "add", "a": nodes[i], "b": nodes[i + 1]}
-        if rng.random() < 0.12:     # c * (I1 + I2), (I1 - I2) * c
-            c = rng.choice([num(2), num(-1), num(3, 2), {"k": "const", "name": rng.choice(CONSTS)}])
-            node = {"k": "scale", "c": c, "x": node, "right": rng.random() < 0.5}
-        nodes[i:i + 2] = [node]
-    case["x"] = nodes[0]
+        return {"k": "int", "dom": D, "e": e if e is not None else g.integrand(kind, case["trials"], case["tests"], rng.randint(1, maxterms))}
+
+    def rand_leaf(first=False):
+        bnd = has_bnd and (rng.random() < 0.2 if first else rng.random() < 0.5)
+        return leaf(gen_dom(rng, topo, d, bnd), bnd)
+
+    style = rng.choices(["plain", "overlap", "cancel"], [0.46, 0.30, 0.24])[0]
+    case["style"] = style
+    if style == "plain":
+        nleaves = rng.choices([1, 2, 3, 4], [0.2, 0.4, 0.25, 0.15])[0]
+        leaves = [rand_leaf(k == 0) for k in range(nleaves)]
+        cancels = nleaves > 1 and rng.random() < 0.06
+        if cancels:
+            prev = rng.choice(leaves[:-1])
+            leaves[-1] = {"k": "int", "dom": prev["dom"], "e": mul(num(-1), prev["e"])}
+        case["x"] = gen_tree(rng, leaves, allow_rdiv=not cancels)
+    elif style == "overlap":
+        doms = overlap_domains(rng, topo, d)
+        if big:
+            doms = doms[:3]
+        leaves = [leaf(D, b) for D, b in doms]
+        rng.shuffle(leaves)
+        case["x"] = gen_tree(rng, leaves)
+    else:
+        # a difference that cancels on a region (or everywhere): the region is dropped, never an error
+        bnd = has_bnd and rng.random() < 0.4
+        D = gen_dom(rng, topo, d, bnd)
+        base = leaf(D, bnd)
+        e = base["e"]
+        regs = expected_regions(D, topo, d)
+        v = rng.random()
+        if v < 0.22:
+            node = {"k": "sub", "a": base, "b": {"k": "int", "dom": D, "e": e}}
+        elif v < 0.50 and len(regs) > 1 and D["t"] in ("union", "domain", "boundary"):
+            if D["t"] == "union":
+                part = rng.choice(D["of"])
+            elif D["t"] == "domain":
+                part = {"t": "patch", "p": rng.randrange(len(topo["patches"]))}
+            else:
+                part = rng.choice(all_faces(topo, d)) if topo["kind"] != "generic" else {"t": "bnd", "n": rng.choice(topo["bnds"])}
+            node = {"k": "sub", "a": base, "b": {"k": "int", "dom": part, "e": e}}
+            if rng.random() < 0.3:
+                node = {"k": "add", "a": {"k": "neg", "x": {"k": "int", "dom": part, "e": e}}, "b": base}
+        elif v < 0.66:
+            node = {"k": "sub", "a": {"k": "scale", "c": num(2), "x": base, "right": rng.random() < 0.5},
+                    "b": {"k": "int", "dom": D, "e": mul(num(2), e)}}
+        elif v < 0.80:
+            node = {"k": "sub", "a": {"k": "div", "x": base, "c": num(2)}, "b": {"k": "int", "dom": D, "e": mul(num(1, 2), e)}}
+        elif v < 0.90:
+            node = {"k": "add", "a": base, "b": {"k": "neg", "x": {"k": "int", "dom": D, "e": e}}}
+        else:
+            node = {"k": "sum", "xs": [base, {"k": "scale", "c": num(-1), "x": {"k": "int", "dom": D, "e": e}, "right": False}]}
+        others = [rand_leaf() for _ in range(rng.choice([0, 1, 1, 2]))]
+        nodes = others + [node]
+        rng.shuffle(nodes)
+        case["x"] = gen_tree(rng, nodes, allow_rdiv=False, p_unary=0.10)
     return finish_case(case)
 
 
-def leaves_of(x):
-    if x["k"] in ("add", "sub"):
-        return leaves_of(x["a"]) + leaves_of(x["b"])
-    if x["k"] == "scale":
-        return leaves_of(x["x"])
-    return [x]
+def raw_expectation(case):
+    """what TerminalExpr.eval does with a hand-assembled Functional (single Integral, `domain` replaced): every entry of
+    `domain` receives the integrand, the kernel is keyed by the entry's interior (entries with one interior share the key),
+    a Union key is handed to its members and accumulates -> per region: (number of distinct interiors covering it) x e"""
+    topo, d = case["topo"], case["dim"]
+    own = expected_regions(case["x"]["dom"], topo, d)
+    e = case["x"]["e"]
+    if e == num(0) or (e["k"] == "add" and len(e["a"]) == 2 and e["a"][1] == mul(num(-1), e["a"][0])):
+        # the integrand vanishes: expr.expr is the number 0, one zero kernel on the interior of the first entry
+        regs = []
+        for D in case["raw_domain"]:
+            regs += [r for r in expected_regions(D, topo, d) if r not in regs]
+        return [regs]
+    if len(own) > 1:
+        return [own]                   # expr.expr is an IntAdd: the integrals are grouped by their own regions
+    seen, regs = [], []
+    for D in case["raw_domain"]:
+        m = expected_regions(D, topo, d)
+        key = sorted(rk(r) for r in m)
+        if key in seen:
+            continue
+        seen.append(key)
+        regs += m
+    return [regs]
 
 
 def finish_case(case):
     topo, d = case["topo"], case["dim"]
+    if case.get("raw_domain"):
+        case["expect"] = {"leaf_regions": raw_expectation(case),
+                          "raw_interiors": [expected_regions(D, topo, d) for D in case["raw_domain"]]}
+        return case
     case["expect"] = {"leaf_regions": [expected_regions(l["dom"], topo, d) for l in leaves_of(case["x"])]}
     return case
 
@@ -512,6 +825,22 @@ def coq_dom(members, D, topo_kind="single"):
     return "(DUnion %s)" % regs
 
 
+def coq_rawdom(D, topo, d):
+    """an entry of the `domain` of a hand-assembled form object, as the model's [dom]"""
+    regs = expected_regions(D, topo, d)
+    if D["t"] in ("rawdomain", "rawpatch"):
+        return "(DDomain %s)" % coq_list([coq_str(r["p"]) for r in regs])
+    if D["t"] in ("patch", "face", "bnd"):
+        return "(DReg %s)" % coq_region(regs[0])
+    raise ValueError(D["t"])
+
+
+def coq_target(t):
+    if t["t"] == "union":
+        return "(DUnion %s)" % coq_list([coq_region(r) for r in t["of"]])
+    return "(DReg %s)" % coq_region(t)
+
+
 def coq_case(ci, case, res):
     """-> (definitions, term) for one case"""
     pre = "c%d_" % ci
@@ -519,25 +848,63 @@ def coq_case(ci, case, res):
     leaves = leaves_of(case["x"])
     for k, lf in enumerate(res["leaves"]):
         defs.append("Definition %sL%d : texpr := sx2t %s." % (pre, k, X.coq_sx(lf["L"])))
+    coefs = {}
+    for path, cj in sorted(res.get("coefs", {}).items()):
+        coefs[path] = "%sC%s" % (pre, path if path else "r")
+        defs.append("Definition %s : texpr := sx2t %s." % (coefs[path], X.coq_sx(cj)))
     counter = [0]
 
-    def walk(x):
-        if x["k"] in ("add", "sub"):     # a - b = a + (-1) * b: the factor is part of the leaf integrand reported by the runner
-            a = walk(x["a"]); b = walk(x["b"])
-            return "(IAdd %s %s)" % (a, b)
-        if x["k"] == "scale":
-            return walk(x["x"])
-        k = counter[0]; counter[0] += 1
-        return "(IInt %s %sL%d)" % (coq_dom(res["leaves"][k]["members"], x["dom"], case["topo"]["kind"]), pre, k)
-    xr = walk(case["x"])
-    spec = coq_list(["(%s, %sL%d)" % (coq_region(r), pre, k)
+    def walk(x, path):
+        k = x["k"]
+        if k == "add":
+            return "(IAdd %s %s)" % (walk(x["a"], path + "a"), walk(x["b"], path + "b"))
+        if k == "sub":
+            return "(ISub %s %s)" % (walk(x["a"], path + "a"), walk(x["b"], path + "b"))
+        if k == "scale":
+            return "(IWrap (%s %s) %s)" % ("WMulR" if x.get("right") else "WMulL", coefs[path], walk(x["x"], path + "x"))
+        if k == "div":
+            return "(IWrap (WDiv %s) %s)" % (coefs[path], walk(x["x"], path + "x"))
+        if k == "rdiv":
+            return "(IWrap (WRDiv %s) %s)" % (coefs[path], walk(x["x"], path + "x"))
+        if k == "neg":
+            return "(IWrap WNeg %s)" % walk(x["x"], path + "x")
+        if k == "zero":
+            return "IZero"
+        if k == "sum":
+            return "(ISum %s)" % coq_list([walk(c, path + "s%d" % i) for i, c in enumerate(x["xs"])])
+        n = counter[0]; counter[0] += 1
+        return "(IInt %s %sL%d)" % (coq_dom(res["leaves"][n]["members"], x["dom"], case["topo"]["kind"]), pre, n)
+    xr = walk(case["x"], "")
+
+    # the specification, written by the harness: every integral contributes its integrand under the operators between it
+    # and the root (plain constructors, independent of the model's wapp / leaves)
+    def effective(k, wraps):
+        t = "%sL%d" % (pre, k)
+        for kind, path in reversed(wraps):
+            if kind == "mul":
+                t = "(TMul %s %s)" % (coefs[path], t)
+            elif kind == "div":
+                t = "(TDiv %s %s)" % (t, coefs[path])
+            else:
+                t = "(TOpp %s)" % t
+        return t
+    lw = leaf_wraps(case["x"])
+    spec = coq_list(["(%s, %s)" % (coq_region(r), effective(k, lw[k]))
                      for k, regs in enumerate(case["expect"]["leaf_regions"]) for r in regs])
-    impl = coq_list(["(%s, %s)" % (coq_region(kk["target"]),
-                                   coq_list([coq_list(["sx2t %s" % X.coq_sx(e) for e in row]) for row in kk["M"]]))
-                     for kk in res["kernels"]])
-    defs.append("Definition %simpl : list (region * matrix) := %s." % (pre, impl))
-    defs.append("Definition %sspec : list iterm := %s." % (pre, spec))
     kind = coq_kind(case)
+    defs.append("Definition %sspec : list iterm := %s." % (pre, spec))
+    mats = lambda kk: coq_list([coq_list(["sx2t %s" % X.coq_sx(e) for e in row]) for row in kk["M"]])  # noqa
+    if case.get("raw_domain"):
+        topo, d = case["topo"], case["dim"]
+        lf = leaves[0]
+        fd = coq_dom(res["leaves"][0]["members"], lf["dom"], case["topo"]["kind"])
+        rimpl = coq_list(["(%s, %s)" % (coq_target(kk["target"]), mats(kk)) for kk in res["kernels"]])
+        defs.append("Definition %srimpl : list (dom * matrix) := %s." % (pre, rimpl))
+        rf = "(mkRForm KFunctional %s (integral isz %s %sL0))" % (coq_list([coq_rawdom(D, topo, d) for D in case["raw_domain"]]), fd, pre)
+        term = "[cmp_rmodel (lower_rform isz %s) %srimpl; roracle %sspec %srimpl; 0; 0; 30 + rarm_tag %s]" % (rf, pre, pre, pre, rf)
+        return defs, term
+    impl = coq_list(["(%s, %s)" % (coq_region(kk["target"]), mats(kk)) for kk in res["kernels"]])
+    defs.append("Definition %simpl : list (region * matrix) := %s." % (pre, impl))
     if case["kind"] == "functional":
         lf = leaves[0]
         fd = coq_dom(res["leaves"][0]["members"], lf["dom"], case["topo"]["kind"])
@@ -576,14 +943,17 @@ def structural_failures(case, res):
         for r in regs:
             if r not in exp:
                 exp.append(r)
-    got = [k["target"] for k in res["kernels"]]
+    got = [r for k in res["kernels"] for r in (k["target"]["of"] if k["target"]["t"] == "union" else [k["target"]])]
+    if any(k["target"]["t"] == "union" for k in res["kernels"]) and not case.get("raw_domain"):
+        bad.append("a kernel whose target is a Union")
     keys = [rk(r) for r in got]
     if len(set(keys)) != len(keys):
         bad.append("several kernels for one region")
     for r in got:
         if r not in exp:
             bad.append("a kernel on a region that does not occur in the form: %s" % rk(r))
-    cls = {"patch": "DomainExpression", "face": "BoundaryExpression", "bnd": "BoundaryExpression", "iface": "InterfaceExpression"}
+    cls = {"patch": "DomainExpression", "face": "BoundaryExpression", "bnd": "BoundaryExpression", "iface": "InterfaceExpression",
+           "union": "DomainExpression"}
     for k in res["kernels"]:
         if cls[k["target"]["t"]] != k["cls"]:
             bad.append("kernel class %s on a region of type %s" % (k["cls"], k["target"]["t"]))
@@ -597,7 +967,9 @@ def structural_failures(case, res):
                 bad.append("kernel shape %dx%d, expected %dx%d" % (len(k["M"]), len(k["M"][0]) if k["M"] else 0, nr, nc))
         if not res["kernels"]:
             bad.append("a form object lowered to no kernel at all")
-    for lf, regs in zip(res["leaves"], case["expect"]["leaf_regions"]):
+    own = ([expected_regions(case["x"]["dom"], case["topo"], case["dim"])] if case.get("raw_domain")
+           else case["expect"]["leaf_regions"])
+    for lf, regs in zip(res["leaves"], own):
         if sorted(rk(r) for r in lf["members"]) != sorted(rk(r) for r in regs):
             bad.append("the domain object of an integral has other members than the topology prescribes")
     return bad
@@ -610,44 +982,47 @@ def dom_descr(D):
 
 
 # ------------------------------------------------------------------------------ shrinking
-def kids(t):
-    return {"add": ("a", "b"), "sub": ("a", "b"), "scale": ("x",)}.get(t["k"], ())
+def node_paths(t, path=()):
+    yield path
+    for i, c in enumerate(children(t)):
+        yield from node_paths(c, path + (i,))
+
+
+def node_at(t, path):
+    for i in path:
+        t = children(t)[i]
+    return t
+
+
+def replace_at(t, path, new):
+    if not path:
+        return new
+    ch = children(t)
+    ch[path[0]] = replace_at(ch[path[0]], path[1:], new)
+    return with_children(t, ch)
 
 
 def shrink_candidates(case):
     x = case["x"]
-    for k in kids(x):
-        yield dict(case, x=x[k])
-
-    def paths(t, path=()):
-        if kids(t):
-            yield path
-            for k in kids(t):
-                yield from paths(t[k], path + (k,))
-    for p in paths(x):
-        if not p:
+    # replace a node by one of its operands (drops an operator, a summand, a scalar)
+    for p in node_paths(x):
+        node = node_at(x, p)
+        for c in children(node):
+            if c["k"] == "zero" and not p:
+                continue
+            yield dict(case, x=replace_at(copy.deepcopy(x), p, copy.deepcopy(c)))
+        if node["k"] == "sum" and len(node["xs"]) > 2:
+            for i in range(len(node["xs"])):
+                yield dict(case, x=replace_at(copy.deepcopy(x), p, dict(node, xs=node["xs"][:i] + node["xs"][i + 1:])))
+        if node["k"] == "sub":
+            yield dict(case, x=replace_at(copy.deepcopy(x), p, dict(node, k="add")))
+    if case.get("raw_domain") and len(case["raw_domain"]) > 1:
+        for i in range(len(case["raw_domain"])):
+            yield dict(case, raw_domain=case["raw_domain"][:i] + case["raw_domain"][i + 1:])
+    for p in node_paths(x):
+        node = node_at(x, p)
+        if node["k"] != "int":
             continue
-        node = x
-        for s_ in p:
-            node = node[s_]
-        for side in kids(node):
-            c = copy.deepcopy(case)
-            parent, n2 = None, c["x"]
-            for s_ in p:
-                parent, n2 = n2, n2[s_]
-            parent[p[-1]] = n2[side]
-            yield c
-
-    def leaf_paths(t, path=()):
-        if kids(t):
-            for k in kids(t):
-                yield from leaf_paths(t[k], path + (k,))
-        else:
-            yield path
-    for p in leaf_paths(x):
-        node = x
-        for s in p:
-            node = node[s]
         e = node["e"]
         subs = []
         if e["k"] == "add":
@@ -656,27 +1031,13 @@ def shrink_candidates(case):
             subs += [mul(*(e["a"][:i] + e["a"][i + 1:])) for i in range(len(e["a"]) - 1)]
         if node["dom"]["t"] == "union" and len(node["dom"]["of"]) > 1:
             for i in range(len(node["dom"]["of"])):
-                c = copy.deepcopy(case)
-                n2 = c["x"]
-                for s in p:
-                    n2 = n2[s]
-                of = n2["dom"]["of"][:i] + n2["dom"]["of"][i + 1:]
-                n2["dom"] = of[0] if len(of) == 1 else {"t": "union", "of": of}
-                yield c
+                of = node["dom"]["of"][:i] + node["dom"]["of"][i + 1:]
+                yield dict(case, x=replace_at(copy.deepcopy(x), p, dict(node, dom=of[0] if len(of) == 1 else {"t": "union", "of": of})))
         if node["dom"]["t"] == "boundary":
-            c = copy.deepcopy(case)
-            n2 = c["x"]
-            for s in p:
-                n2 = n2[s]
-            n2["dom"] = {"t": "union", "of": all_faces(case["topo"], case["dim"])[:2]}
-            yield c
+            yield dict(case, x=replace_at(copy.deepcopy(x), p,
+                                          dict(node, dom={"t": "union", "of": all_faces(case["topo"], case["dim"])[:2]})))
         for s2 in subs:
-            c = copy.deepcopy(case)
-            n2 = c["x"]
-            for s in p:
-                n2 = n2[s]
-            n2["e"] = s2
-            yield c
+            yield dict(case, x=replace_at(copy.deepcopy(x), p, dict(node, e=s2)))
     used = json.dumps(case["x"])
     for slot in ("trials", "tests"):
         if len(case[slot]) > 1:
@@ -685,33 +1046,240 @@ def shrink_candidates(case):
                     yield dict(case, **{slot: case[slot][:i] + case[slot][i + 1:]})
 
 
+# ------------------------------------------------------------------------------ direct probes
+def probe_topo(rng, multi=False):
+    d = rng.choice([1, 2, 2, 3]) if not multi else rng.choice([2, 2, 3])
+    if multi:
+        n = rng.choice([2, 3])
+        names = ["A", "B", "C"][:n]
+        return {"kind": "multi", "patches": names, "joins": [[[k, 0, 1], [k + 1, 0, -1]] for k in range(n - 1)],
+                "name": "".join(names)}, d
+    return {"kind": rng.choice(["single", "single", "mapped"]), "patches": ["S"]}, d
+
+
+def gen_probes(rng, tier):
+    """direct calls of anchored functions whose arms no form reaches: error exits, the Trace / Matrix / vector arms of
+    TerminalExpr.eval, the flags set by Integral.__new__, _to_matrix_form with an InterfaceMapping"""
+    out = []
+
+    def P(name, topo_d, **kw):
+        topo, d = topo_d
+        out.append(dict({"kind": "probe", "probe": name, "dim": d, "topo": topo}, **kw))
+
+    def face(topo, d):
+        return rng.choice(all_faces(topo, d))
+    for what in ("tuple", "list", "str", "matrix", "pytuple"):
+        td = probe_topo(rng, multi=rng.random() < 0.5)
+        D = rng.choice([{"t": "domain"}, {"t": "patch", "p": 0}, face(*td), {"t": "boundary"}])
+        P("integral-non-expr", td, what=what, dom=D)
+    for what in ("product", "symbol", "none"):
+        P("integral-bad-domain", probe_topo(rng), what=what)
+    for _ in range(3):
+        td = probe_topo(rng, multi=True)
+        P("integral-flags", td, dom=rng.choice([{"t": "iface"}, {"t": "patch", "p": rng.randrange(len(td[0]["patches"]))}, face(*td)]))
+    P("integral-flags", probe_topo(rng, multi=True), dom={"t": "iface"})
+    pool = ["u", "v", "F", "G"]
+    for _ in range(3):
+        args = rng.sample(pool, rng.randint(1, 4))
+        P("unpack", probe_topo(rng), args=args)
+    for bad in ("sym", "F0", "num"):
+        args = rng.sample(pool, rng.randint(0, 2))
+        args.insert(rng.randint(0, len(args)), bad)
+        P("unpack", probe_topo(rng), args=args)
+    for what in ("symbol", "basicexpr"):
+        P("trials-tests", probe_topo(rng), what=what)
+    P("trials-tests", probe_topo(rng), what="linearexpr", flatten=True)
+    P("trials-tests", probe_topo(rng), what="linearexpr", flatten=False)
+    for what in ("one", "symbol", "sone"):
+        td = probe_topo(rng)
+        P("radd-nonzero", td, what=what, right=(what == "sone" and rng.random() < 0.5), dom=rng.choice([{"t": "domain"}, face(*td)]))
+    # Trace arms (orders 0 and 1), Matrix arm, BasicExpr arm: the result against its definition, decided by tequiv
+    nt = 4 if tier == "quick" else 12
+    for i in range(nt):
+        td = probe_topo(rng)
+        if i % 2 == 1:      # the normal trace: the arm with the normal vector (d >= 2) and the 1-D arm, every run
+            td = (td[0], [2, 1, 3][(i // 2) % 3])
+        topo, d = td
+        g = EGen(rng, d, False)
+        u = {"name": "u", "vec": False}
+        U = {"name": "U", "vec": True}
+        if i % 2 == 0:
+            e = rng.choice([g.factor(u, "S"), mul(g.sfield(), g.factor(u, "S")), g.factor(U, "S")])
+            P("trace", td, order=0, e=e, dom=face(*td))
+        else:
+            e = rng.choice([g.factor(u, "V"), g.factor(U, "V"), {"k": "vf", "name": "U"}, op("grad", {"k": "sf", "name": "u"})])
+            if g.has_cross(e):
+                e = op("grad", {"k": "sf", "name": "u"})
+            P("trace", td, order=1, e=e, dom=face(*td))
+    td = probe_topo(rng)
+    P("trace", td, order=rng.choice([2, 3]), e=rng.choice([{"k": "sf", "name": "u"}, op("grad", {"k": "sf", "name": "u"})]), dom=face(*td))
+    for i in range(2 if tier == "quick" else 6):
+        td = probe_topo(rng)
+        topo, d = td
+        g = EGen(rng, d, False)
+        u = {"name": "u", "vec": False}
+        U = {"name": "U", "vec": True}
+        nr, nc = rng.randint(1, 2), rng.randint(1, 3)
+        rows = [[rng.choice([g.factor(u, "S"), g.factor(U, "S"), g.data("S"), num(rng.randint(0, 2))]) for _ in range(nc)] for _ in range(nr)]
+        P("matrix", td, rows=rows, immutable=rng.random() < 0.5)
+    for i in range(2):
+        td = probe_topo(rng)
+        g = EGen(rng, td[1], False)
+        P("basicexpr-arm", td, e=g.linear_term([{"name": "v", "vec": False}]))
+    for what in ("tangent", "normal"):
+        td = probe_topo(rng)
+        P("vector-arm", (td[0], max(td[1], 2)), what=what)      # in 1-D a row and a column are the same 1x1 matrix
+    td = probe_topo(rng)
+    P("abs-arm", td, e=EGen(rng, td[1], False).factor({"name": "u", "vec": False}, "S"))
+    for det in (False, True):
+        td = probe_topo(rng)
+        if td[1] == 1:
+            td = (td[0], 2)
+        P("matrix-form-interface-mapping", td, det=det, dom=face(*td))
+    td = probe_topo(rng)
+    P("foreign-domain", td, dom=rng.choice([{"t": "domain"}, face(*td)]))
+    return out
+
+
+def probe_verdict(p, r):
+    """-> (failure message | None, [(got sx, want)] to be proved equal by tequiv, where want is an sx or
+    ("normal-trace", comps, normal))"""
+    out = r.get("out", {}) if r else {}
+    name = p["probe"]
+    d = p["dim"]
+
+    def refused(kinds):
+        if out.get("exc") in kinds:
+            return None, []
+        return "expected a refusal (%s), observed %s" % ("/".join(kinds), json.dumps(out)[:200]), []
+    if "unsupported" in out:
+        return "the result contains a node outside the terminal grammar: %s" % out["unsupported"], []
+    if name == "integral-non-expr":
+        return refused(["type"])
+    if name == "integral-bad-domain":
+        if p["what"] == "none":
+            return (None if out.get("ok") is True else "Integral(expr, None) is not the number 0: %s" % json.dumps(out)[:200]), []
+        return refused(["type"] if p["what"] == "product" else ["assertion", "type"])
+    if name == "integral-flags":
+        t = p["dom"]["t"]
+        want = {"cls": "Integral", "flags": {"patch": [True, None, None], "face": [None, True, None], "iface": [None, None, True]}[t],
+                "domain_same": True, "expr_same": True, "nargs": 2}
+        return (None if out.get("ok") == want else "Integral over a %s: expected %s, observed %s" % (t, json.dumps(want), json.dumps(out)[:300])), []
+    if name == "unpack":
+        if any(a in ("sym", "F0", "num") for a in p["args"]):
+            return refused(["type"])
+        want = []
+        for a in p["args"]:
+            want += [[a, i + 1] for i in range(d)] if a in ("F", "G") else [[a, 0]]
+        return (None if out.get("ok") == want else "_unpack_functions: expected %s, observed %s" % (json.dumps(want), json.dumps(out)[:300])), []
+    if name == "trials-tests":
+        if p["what"] == "symbol":
+            return refused(["type"])
+        if p["what"] == "basicexpr":
+            return refused(["value", "name"])      # ValueError is constructed but not raised: UnboundLocalError follows
+        want = {"trials": True, "tests": ([["v", 0]] + [["F", i + 1] for i in range(d)]) if p.get("flatten", True) else ["v", "F"]}
+        return (None if out.get("ok") == want else "_get_trials_tests(LinearExpr): expected %s, observed %s" % (json.dumps(want), json.dumps(out)[:300])), []
+    if name == "radd-nonzero":
+        return refused(["attribute", "type", "value"])
+    if name == "trace" and p["order"] >= 2:
+        return refused(["value"])
+    if name in ("trace", "matrix", "basicexpr-arm"):
+        if "exc" in out:
+            return "the call raised (%s)" % out["exc"], []
+        o = out.get("ok") or {}
+        if name == "matrix":
+            if o.get("shape") != [len(p["rows"]), len(p["rows"][0])]:
+                return "TerminalExpr(Matrix): shape %s, expected %s" % (o.get("shape"), [len(p["rows"]), len(p["rows"][0])]), []
+            return None, [(a, b) for a, b in o["pairs"]]
+        if name == "trace" and p["order"] == 1 and "comps" in o:
+            return None, [(o["pairs"][0][0], ("normal-trace", o["comps"], o["normal"]))]
+        return None, [(a, b) for a, b in o["pairs"]]
+    if name == "vector-arm":
+        cls_ = {"tangent": "TangentVector", "normal": "NormalVector"}[p["what"]]
+        want = {"shape": [1, d] if p["what"] == "tangent" else [d, 1], "entries": [[cls_, True, i] for i in range(d)]}
+        return (None if out.get("ok") == want else "TerminalExpr(%s): expected %s, observed %s" % (cls_, json.dumps(want), json.dumps(out)[:300])), []
+    if name == "abs-arm":
+        return (None if out.get("ok") is True else "TerminalExpr(Abs(e)) is not Abs(TerminalExpr(e)): %s" % json.dumps(out)[:200]), []
+    if name == "foreign-domain":
+        return refused(["type"])
+    if name == "matrix-form-interface-mapping":
+        want = {"shape": [1, 1], "no_interface_mapping": True, "has_before": True, "equals_minus": True}
+        return (None if out.get("ok") == want else "_to_matrix_form off an interface keeps the InterfaceMapping: %s" % json.dumps(out)[:300]), []
+    return "unknown probe", []
+
+
+def coq_probe_pairs(pairs):
+    """[(pi, got, want)] -> text of a case file deciding every pair by tequiv"""
+    defs, terms = [], []
+    for n, (pi, got, want) in enumerate(pairs):
+        defs.append("Definition g%d : texpr := sx2t %s." % (n, X.coq_sx(got)))
+        if isinstance(want, tuple):
+            _, comps, normal = want
+            if True:
+                w = "(tsum %s)" % coq_list(["(TMul (sx2t %s) (sx2t %s))" % (X.coq_sx(c), X.coq_sx(nj)) for c, nj in zip(comps, normal)])
+        else:
+            w = "(sx2t %s)" % X.coq_sx(want)
+        defs.append("Definition w%d : texpr := %s." % (n, w))
+        terms.append("tequiv g%d w%d" % (n, n))
+    return HEADER + "\n".join(defs) + "\nEval vm_compute in %s.\n" % coq_list(terms)
+
+
 # ------------------------------------------------------------------------------ main
 def main(run, replay=None):
     rng = run.rng
     quick = run.tier == "quick"
-    n = 340 if quick else 2400
+    n = 300 if quick else 2400
+    import time as _t
+    _t0 = _t.time()
+    _tm = {}
     proof_ok = run.coq_props()
+    _tm["proofs"] = round(_t.time() - _t0, 1); _t0 = _t.time()
 
     corpus_f = run.work.parents[1] / "corpus" / "C06.json"
-    cases = []
+    cases, probes = [], []
     if replay:
-        cases = [finish_case(json.load(open(replay))["case"])]
+        rc = json.load(open(replay))["case"]
+        if rc.get("kind") == "probe":
+            probes = [rc]
+        else:
+            cases = [finish_case(rc)]
     else:
         if corpus_f.exists():
             cases += [finish_case(c) for c in json.load(open(corpus_f))]
         cases += [gen_case(rng, run.tier, i) for i in range(n)]
+        probes = gen_probes(rng, run.tier)
 
     nb = 16
-    outs = run.impl_parallel("C06_impl", [{"cases": cases[i::nb]} for i in range(nb) if cases[i::nb]], timeout=3000)
-    results = [None] * len(cases)
+    allc = cases + probes
+    outs = run.impl_parallel("C06_impl", [{"cases": allc[i::nb]} for i in range(nb) if allc[i::nb]], timeout=3000)
+    allr = [None] * len(allc)
     for bi, (res, log) in enumerate(outs):
-        idxs = list(range(len(cases)))[bi::nb]
+        idxs = list(range(len(allc)))[bi::nb]
         if res is None:
             run.report({"kind": "runner-crash"}, "implementation runner crashed", {"log": log[-2000:]},
                        found_input=False, theorem_or_case="C06 runner")
             continue
         for i, r in zip(idxs, res["results"]):
-            results[i] = r
+            allr[i] = r
+    results, presults = allr[:len(cases)], allr[len(cases):]
+    _tm["implementation"] = round(_t.time() - _t0, 1); _t0 = _t.time()
+
+    # ---- direct probes: expectations, and the identities to be proved by tequiv
+    pstats = {"probes": len(probes), "probe_ok": 0, "probe_identities": 0, "probe_identities_proved": 0, "probe_kinds": {}}
+    pfail, ppairs = [], []
+    for pi, (pc, pr) in enumerate(zip(probes, presults)):
+        pstats["probe_kinds"][pc["probe"]] = pstats["probe_kinds"].get(pc["probe"], 0) + 1
+        if pr is None:
+            continue
+        if "crash" in pr:
+            pfail.append((pi, "the runner crashed: " + pr["crash"][-300:]))
+            continue
+        msg, pairs = probe_verdict(pc, pr)
+        if msg:
+            pfail.append((pi, msg))
+        else:
+            pstats["probe_ok"] += 1
+        ppairs += [(pi, a, b) for a, b in pairs]
 
     # ---- Coq: model vs implementation, oracle vs specification
     files, index = {}, []
@@ -740,7 +1308,23 @@ def main(run, replay=None):
         if len(pend_terms) >= per:
             flush()
     flush()
+    if ppairs:
+        files["probes_C06"] = coq_probe_pairs(ppairs)
     coq_out = run.coq_eval_many(files, timeout=1500)
+    _tm["case_files"] = round(_t.time() - _t0, 1); _t0 = _t.time()
+    if ppairs:
+        rc_, out_ = coq_out["probes_C06"]
+        vals = run.parse_list_output(out_) if rc_ == 0 else None
+        if vals is None or len(vals) != len(ppairs):
+            run.report({"kind": "cases-file"}, "generated probe file did not evaluate", {"file": "probes_C06", "log": out_[-1500:]},
+                       found_input=False, theorem_or_case="probes_C06")
+        else:
+            pstats["probe_identities"] = len(vals)
+            for (pi, a, b), v in zip(ppairs, vals):
+                if v == "true":
+                    pstats["probe_identities_proved"] += 1
+                else:
+                    pfail.append((pi, "the result is not proved equal to its definition (tequiv = false)"))
     code = {}
     for name, own in index:
         rc, out = coq_out[name]
@@ -757,7 +1341,7 @@ def main(run, replay=None):
     # ---- decide
     stats = {"model_agrees_exactly": 0, "model_agrees_up_to_zero_kernels": 0, "model_entry_unproved": 0,
              "model_unmodelled": 0, "oracle_proved_in_coq": 0, "checker_incomplete": 0, "numeric_oracle_checked": 0,
-             "hypotheses_established": 0, "hypotheses_not_syntactic": 0, "zero_forms": 0, "unsupported_node": 0, "integrand_does_not_lower": 0,
+             "hypotheses_established": 0, "hypotheses_not_syntactic": 0, "zero_forms": 0, "rdiv_refused": 0, "rdiv_of_zero": 0, "unsupported_node": 0, "integrand_does_not_lower": 0,
              "kernels": 0, "entries": 0, "zero_valued_kernels": 0, "arm_tag_agrees": 0, "arm_tag_differs": 0}
     failing = []   # (ci, kind, message)
     incomplete = []
@@ -771,6 +1355,12 @@ def main(run, replay=None):
         if "err" in r:
             if r["err"] == "leaf-lowering":
                 stats["integrand_does_not_lower"] += 1
+                continue
+            if r["err"] == "rdiv-refused":      # c / integral refused with a TypeError: nothing to lower
+                stats["rdiv_refused"] += 1
+                continue
+            if r["err"] == "rdiv-of-zero":      # c / (integrals that cancelled to the number 0): an ill-posed input
+                stats["rdiv_of_zero"] += 1
                 continue
             if r["err"] == "unsupported-node":
                 stats["unsupported_node"] += 1
@@ -808,6 +1398,8 @@ def main(run, replay=None):
             if r["zero"]:
                 arm_cov["form-is-the-number-0"] = arm_cov.get("form-is-the-number-0", 0) + 1
             impl_tag = 0 if r["zero"] else ((20 if "expr-is-Add" in arms else 10) + (4 if "corner-case-zero" in arms else 3))
+            if tag >= 30:     # a hand-assembled form object: 34 = corner case, 35 = a Union-keyed kernel was distributed, 33 = neither
+                impl_tag = 30 + (4 if "corner-case-zero" in arms else 5 if "union-keyed-kernel" in arms else 3)
             if impl_tag == tag:
                 stats["arm_tag_agrees"] += 1
             else:
@@ -898,6 +1490,19 @@ def main(run, replay=None):
                           "  # in.json = {'cases':[case]}",
                    theorem_or_case="oracle:%s" % kind if found else "correspondence FormsM.lower vs TerminalExpr (%s)" % kind,
                    found_input=found)
+    preported = set()
+    for pi, msg in pfail:
+        pc = probes[pi]
+        if pc["probe"] in preported:
+            continue
+        preported.add(pc["probe"])
+        run.report({"kind": "probe", "probe": pc["probe"]}, "C06 fails on the implementation: %s: %s" % (pc["probe"], msg), pc,
+                   observed=presults[pi],
+                   required="the anchored function behaves as the property prescribes on a direct call (refusal of malformed input as a "
+                            "small enum; the Trace / Matrix / vector arms of TerminalExpr.eval equal their definitions)",
+                   python="PYTHONPATH=/repo:/verif/tools/impl /venv/bin/python /verif/tools/impl/C06_impl.py in.json out.json"
+                          "  # in.json = {'cases':[case]}",
+                   theorem_or_case="oracle:probe:%s" % pc["probe"], found_input=True)
     if not proof_ok:
         fo = run.failing_obligation()
         run.report({"kind": "proof"}, "a proof obligation of Props/C06.v no longer checks", fo,
@@ -907,7 +1512,8 @@ def main(run, replay=None):
     def bump(h, k):
         h[str(k)] = h.get(str(k), 0) + 1
     hist = {"form_kind": {}, "topology": {}, "dimension": {}, "trial_space": {}, "test_space": {}, "arguments_per_slot": {},
-            "regions_per_form": {}, "block_shape": {}, "integrals_per_form": {}, "domain_kinds": {}, "union_sizes": {}}
+            "regions_per_form": {}, "block_shape": {}, "integrals_per_form": {}, "domain_kinds": {}, "union_sizes": {},
+            "style": {}, "tree_operators": {}, "regions_shared_by_integrals": {}, "raw_domain_entries": {}}
     distinct = set()
     for c, r in zip(cases, results):
         if r is None or "crash" in r or "err" in r:
@@ -927,8 +1533,20 @@ def main(run, replay=None):
         if r["kernels"]:
             m = r["kernels"][0]["M"]
             bump(hist["block_shape"], "%dx%d" % (len(m), len(m[0])))
+        bump(hist["style"], c.get("style", "corpus"))
+        for opn, cnt in tree_ops(c["x"]).items():
+            hist["tree_operators"][opn] = hist["tree_operators"].get(opn, 0) + cnt
+        if not c.get("raw_domain"):
+            mult = {}
+            for regs in c["expect"]["leaf_regions"]:
+                for rr in regs:
+                    mult[rk(rr)] = mult.get(rk(rr), 0) + 1
+            bump(hist["regions_shared_by_integrals"], max(mult.values()) if mult else 0)
+        else:
+            for D in c["raw_domain"]:
+                bump(hist["raw_domain_entries"], D["t"])
         for lf in leaves_of(c["x"]):
-            bump(hist["domain_kinds"], lf["dom"]["t"])
+            bump(hist["domain_kinds"], dom_descr(lf["dom"]))
         for regs in c["expect"]["leaf_regions"]:
             if len(regs) > 1:
                 bump(hist["union_sizes"], len(regs))
@@ -942,7 +1560,9 @@ def main(run, replay=None):
                 "with the real TerminalExpr(form, domain); non-trivial = the lowering has >= 2 kernels or a kernel with >= 2 "
                 "entries; distinct = canonical JSON of (kind, arguments, lowered integrands, regions of every integral)",
         "traces_validated_against_impl": stats["model_agrees_exactly"] + stats["model_agrees_up_to_zero_kernels"],
-        "decisions": stats,
+        "decisions": dict(stats, **{k: v for k, v in pstats.items() if k != "probe_kinds"}),
+        "probe_kinds": pstats["probe_kinds"],
+        "phase_seconds": _tm,
         "checker_incomplete_examples": incomplete,
         "arm_coverage": arm_cov,
         "arm_tag_mismatches": tag_mismatches,
@@ -966,9 +1586,16 @@ def main(run, replay=None):
         "The no-loss theorem assumes integrands additive in the test and in the trial components (semantic hypothesis); the "
         "syntactic criterion hom1 is evaluated on every generated case (decisions.hypotheses_established).",
         "tequiv=false is 'not proved': such cases are decided by the numeric oracle only and counted as checker_incomplete.",
-        "Scalar multiples and differences of integrals (c*(I1+I2), I1-I2: Integral.__mul__/__neg__, IntAdd.__mul__) are built on "
-        "the implementation side; the model and the specification receive the leaf integrands with the accumulated factor "
-        "(these operators are covered by the oracle, not by a model arm).",
+        "Scalar multiples, quotients, differences of integrals, 0 + I and sum([..]) are built with the real operators of Integral / "
+        "IntAdd and are arms of the model (iexpr: IWrap / ISub / IZero / ISum); the specification (every integral contributes its "
+        "integrand under the operators between it and the root) is written by the harness with plain constructors. c / I is read "
+        "as the library computes it (I / c).",
+        "Hand-assembled form objects (a Functional whose `_domain` is replaced by entries that are Domain objects) are the only way "
+        "to reach the block 'treating subdomains' (Union-keyed kernels handed to the members with +=) and the `domain.interior` "
+        "normalisations: no constructor produces such an object. They are modelled by FormsM.lower_rform and decided like the others; "
+        "their specification is the reading 'every entry of domain receives the integrand'.",
+        "Direct probes (error exits, Trace / Matrix / TangentVector / Abs / BasicExpr arms of TerminalExpr.eval, Integral flags, "
+        "_to_matrix_form with an InterfaceMapping) are oracle-only: no model arm; identities are decided by tequiv.",
         "The model has one zero test for the integrand before and after lowering; an integrand that vanishes only after lowering "
         "makes the model take another arm than the code (recorded in arm_tag_mismatches; kernels still agree up to zero kernels).",
     ]
